@@ -96,6 +96,10 @@ package cmd
 //@   pure
 //@   requires client != nil
 
+// What a match of resetRegexp (`^HEAD@\{\d+\}$`) says about the pieces the closure cuts the argument into (assumed;
+// validated against the real regexp by TestVFReplay_regexps in /verif/replay/cmd.go.txt)
+//@ regexp resetRegexp: match(s) ==> contains(s, "HEAD@") && len(splitAll(s, "HEAD@")) >= 2 && len(splitAll(s, "HEAD@")[1]) >= 3 && allDigits(bsub(splitAll(s, "HEAD@")[1], 1, len(splitAll(s, "HEAD@")[1]) - 1))
+
 //@ func resetCmd.RunE
 //@   requires clientWF() && cmd != nil
 //@   requires [repo-connected] store.logConn(fs, client.RootGoitPath)
